@@ -32,7 +32,7 @@ ASSUMPTIONS = [
     "dims / sizes / coordinates / connectivity list what the grid currently stores: like exports, they may list more than a fresh grid's (derived entries) but never less, with equal sizes where common",
 ]
 BUDGET = {
-    "quick": dict(shards=4, examples=150),
+    "quick": dict(shards=4, examples=100),
     "thorough": dict(shards=16, examples=600, wall_cap_s=1800),
 }
 
